@@ -58,10 +58,14 @@ impl tower::Service<Request<Bytes>> for HoldSvc {
         let held = if self.hold_ref { req.extensions().get::<NetworkRef>().and_then(|r| r.upgrade()) } else { None };
         let delay: u64 = req.headers().get("x-delay-ms").and_then(|v| v.parse().ok()).unwrap_or(0);
         let hold: u64 = req.headers().get("x-hold-ms").and_then(|v| v.parse().ok()).unwrap_or(0);
+        let busy: u64 = req.headers().get("x-busy-ms").and_then(|v| v.parse().ok()).unwrap_or(0);
         self.started.fetch_add(1, Ordering::SeqCst);
         Box::pin(async move {
             // a CPU-bound stretch: the task running this handler occupies its worker thread
             hold_current_task(Duration::from_millis(hold));
+            // ... or it is busy on a resource that is always ready and yields only when tokio's
+            // cooperative budget makes it
+            busy_on_a_hot_resource(Duration::from_millis(busy)).await;
             tokio::time::sleep(Duration::from_millis(delay)).await;
             drop(held);
             Ok(Response::new(req.into_body()))
@@ -179,6 +183,8 @@ fn run(input: RunInput) -> ScenFuture {
         let mut mix = Vec::new();
         let cpu_bound = w.flag("cpu_bound_handlers", 0.3);
         let mut max_hold_ms = 0u64;
+        let busy_handlers = w.flag("handlers_busy_on_a_hot_resource", 0.15);
+        let mut n_busy = 0;
         if let Some(n0) = net() {
             // RPCs S -> peers with sleeping remote handlers
             for _ in 0..r.gen_range(0..4) {
@@ -196,12 +202,16 @@ fn run(input: RunInput) -> ScenFuture {
                 let p = peers[r.gen_range(0..n_peers)].clone();
                 let hold_ms: u64 = if cpu_bound && r.gen_bool(0.6) { r.gen_range(20..1_500) } else { 0 };
                 max_hold_ms = max_hold_ms.max(hold_ms);
-                mix.push(if hold_ms > 0 { "rpc-in-cpu-bound" } else { "rpc-in" });
+                let busy_ms: u64 = if busy_handlers && hold_ms == 0 && n_busy < 2 && r.gen_bool(0.7) { n_busy += 1; r.gen_range(50..500) } else { 0 };
+                if busy_ms > 0 {
+                    w.probe("handler-busy-on-a-hot-resource-at-shutdown");
+                }
+                mix.push(if hold_ms > 0 { "rpc-in-cpu-bound" } else if busy_ms > 0 { "rpc-in-busy" } else { "rpc-in" });
                 if hold_ms > 0 {
                     w.probe("handler-cpu-bound-at-shutdown");
                 }
                 track("rpc-in".into(), Box::pin(async move {
-                    p.net.rpc(s_id, Request::new(Bytes::from_static(b"i")).with_header("x-delay-ms", "60000").with_header("x-hold-ms", hold_ms.to_string())).await.map(|_| ()).map_err(|e| format!("{e:#}"))
+                    p.net.rpc(s_id, Request::new(Bytes::from_static(b"i")).with_header("x-delay-ms", "60000").with_header("x-hold-ms", hold_ms.to_string()).with_header("x-busy-ms", busy_ms.to_string())).await.map(|_| ()).map_err(|e| format!("{e:#}"))
                 }));
             }
             // explicit dials to dead addresses
@@ -236,7 +246,9 @@ fn run(input: RunInput) -> ScenFuture {
         let t_shutdown = w.now_ns();
         // (a handler that does not yield cannot be cancelled before it does: that time is the
         // application's, not the network's)
-        let bound_ns = (idle_wait_ms + 2 * lat_max / 1000 + 100 + max_hold_ms) * 1_000_000;
+        // (with busy handlers the process is one busy thread: timers fire at the next turn of the
+        // timer driver, up to 16 ms of CPU later, at each step of the shutdown)
+        let bound_ns = (idle_wait_ms + 2 * lat_max / 1000 + 100 + max_hold_ms + if n_busy > 0 { 100 } else { 0 }) * 1_000_000;
         let mut shutdown_result: Option<Result<(), String>> = None;
         let mut desc = String::new();
         match mode {
